@@ -8,7 +8,7 @@ server on the directory and records what the real code reads back.  TLC
 from the recorded steps, recovers it with the Spec's own reading of the container
 formats, checks that this equals what the real code read (binding) and decides
 C29_Others, C29_LeaseOnly, C29_AllOrNothing, C29_Discard on it."""
-import json
+import json, os
 
 FAMILY = {"imm": "immutable", "mut": "mutable"}
 
@@ -85,5 +85,9 @@ def run(ctx):
     ctx.sample({"operations": ["%s: %d steps" % (k[1], v) for k, v in sorted(ops.items())][:12]})
     ctx.constants["workload"] = {"operations": len(ops), "crash_points": len(traces)}
     ctx.exhaustive = True
-    ctx.trace("storage/TraceShareFileDisk", traces, key_of=key_of, what_of=what_of, batch=300)
+    by_header = os.environ.get("C29_IMM_RECOVERY", "filesize") == "header"   # only to try mutants/C29_proposed_fix.diff
+    cfg = ("SPECIFICATION TraceSpec\nCONSTANT ImmByHeader = %s\nINVARIANT TraceOK\nCHECK_DEADLOCK FALSE\n"
+           % ("TRUE" if by_header else "FALSE"))
+    ctx.constants["ImmByHeader"] = by_header
+    ctx.trace("storage/TraceShareFileDisk", traces, cfg=cfg, key_of=key_of, what_of=what_of, batch=300)
     ctx.notes.append("%d operations, %d crash points (every step index of every operation), each with a real restart" % (len(ops), len(traces)))
